@@ -841,7 +841,7 @@ def finish(chk):
     except Exception:
         pass
     if chk.tier == "thorough" and chk.lean is not None and chk.lean.build_ok:
-        ok, out = leanchecker(["SqlLineage.Props.C11", "SqlLineage.Proofs.PermLemmas", "SqlLineage.Model.Lazy"])
+        ok, out = leanchecker(["SqlLineage.Props.C11", "SqlLineage.Proofs.PermLemmas", "SqlLineage.Model.Lazy", "SqlLineage.Model.FoldOrd"])
         chk.coverage["leanchecker"] = "accepted" if ok else "REJECTED: " + out[-300:]
         if not ok:
             chk.lean.forbidden.append("leanchecker rejected SqlLineage.Props.C11: " + out[-300:])
